@@ -1746,6 +1746,14 @@ class Folder:
             return
         if isinstance(st, ast.Pass):
             return
+        if isinstance(st, ast.With) and self.symbolic:
+            # context managers are entered for their value only (warnings filters, timers): body folded in place
+            for it in st.items:
+                v = self.ev(it.context_expr, env)
+                if it.optional_vars is not None:
+                    self.assign(it.optional_vars, v, env)
+            self.block(st.body, env)
+            return
         if isinstance(st, ast.For):
             it = self.ev(st.iter, env)
             if isinstance(it, Arr) and len(it.shape) == 1:
